@@ -6,9 +6,9 @@
    Prop = "XS":   events are [sv, doc, lib] - arbitrary (mutated) documents with the verdict of the
                   jsonschema library on the pinned official schema file; the TLA+ transcription must
                   agree (a disagreement is a machinery failure, not a violation)               *)
-EXTENDS JsonSchema, Json, IOUtils, FiniteSets
+EXTENDS JsonSchema, Json, IOUtils, FiniteSets, TraceData
 CONSTANT Prop
-T == JsonDeserialize(IOEnv.TRACE_FILE)
+T == TraceData
 VARIABLES i, ph
 Init == i \in 1..Len(T) /\ ph = 0
 Next == ph = 0 /\ ph' = 1 /\ i' = i
